@@ -263,6 +263,21 @@ def _blockify(clients: Iterable[Tuple[ClientId, Iterable[BatchExample],
         client_input=[client_input for _, _, client_input in block])
 
 
+def _device_put_sharded(shards: Sequence[PyTree], devices: Sequence[Any]):
+  """jax.device_put_sharded, or its stacked equivalent where jax removed it."""
+  if hasattr(jax, 'device_put_sharded'):
+    return jax.device_put_sharded(shards, devices)
+  # jax.pmap splits the leading axis of its arguments across devices itself.
+  return jax.tree_util.tree_map(lambda *xs: jnp.stack(xs), *shards)
+
+
+def _device_put_replicated(x: PyTree, devices: Sequence[Any]):
+  """jax.device_put_replicated, or its stacked equivalent where jax removed it."""
+  if hasattr(jax, 'device_put_replicated'):
+    return jax.device_put_replicated(x, devices)
+  return jax.tree_util.tree_map(lambda l: jnp.stack([l] * len(devices)), x)
+
+
 class ForEachClientPmapBackend(ForEachClientBackend):
   """for_each_client backend using jax.pmap for parallelization."""
 
@@ -308,21 +323,21 @@ class ForEachClientPmapBackend(ForEachClientBackend):
     p_client_final = jax.pmap(client_final, donate_argnums=1)
 
     def run_block(p_shared_input, block):
-      p_client_input = jax.device_put_sharded(block.client_input, devices)
+      p_client_input = _device_put_sharded(block.client_input, devices)
       p_state = p_client_init(p_shared_input, p_client_input)
       p_step_results = []
       for p_batch, p_mask in block.masked_batches:
         p_state, p_step_result = p_client_step(
             p_state,
-            jax.device_put_sharded(p_batch, devices),
-            jax.device_put_sharded(p_mask, devices),
+            _device_put_sharded(p_batch, devices),
+            _device_put_sharded(p_mask, devices),
         )
         p_step_results.append(p_step_result)
       p_client_output = p_client_final(p_shared_input, p_state)
       return p_client_output, p_step_results
 
     def run(shared_input, clients):
-      p_shared_input = jax.device_put_replicated(shared_input, devices)
+      p_shared_input = _device_put_replicated(shared_input, devices)
       for block in _blockify(clients, block_size):
         p_client_output, p_step_results = run_block(p_shared_input, block)
         # Split outputs and release buffers as we go.
